@@ -139,7 +139,7 @@ theorem runCall_more (p : Peer) (w : Wire) (method : String) (args : Option Json
     o.wire.log = w.log ++ [mkRequest method (args.getD .null) false true false] := by
   have hsend := send_ok p false true false
     { conn := {}, call := { MCall.new method (args.getD .null) with continues := true }, wire := w }
-    method (args.getD .null) rfl rfl rfl h.canWrite
+    method (args.getD .null) rfl rfl rfl rfl h.canWrite
   simp only [Bool.false_eq_true, if_false] at hsend
   have hqueue : (w.accept p (mkRequest method (args.getD .null) false true false)).queue =
       rs.map Msg.reply ++ .reply f :: [] := by
@@ -165,7 +165,7 @@ theorem runCall_plain (p : Peer) (w : Wire) (method : String) (args : Option Jso
     o.wire.log = w.log ++ [mkRequest method (args.getD .null) false false false] := by
   have hsend := send_ok p false false false
     { conn := {}, call := MCall.new method (args.getD .null), wire := w }
-    method (args.getD .null) rfl rfl rfl hcw
+    method (args.getD .null) rfl rfl rfl rfl hcw
   simp only [Bool.false_eq_true, if_false] at hsend
   have hqueue : (w.accept p (mkRequest method (args.getD .null) false false false)).queue = .reply f :: rest := by
     simp [Wire.accept, hempty, hopen, hans]
